@@ -227,6 +227,47 @@ def bk8(p, res):
     return n
 
 
+def bk13(p, res):
+    """AVX normalisation step kernels: `get_carry_avx(x, d, width, top_mask)` removes the digit d and shifts by the digit's width; d comes from `get_digit_avx(x, mask, sign)`.
+    The width constants of the carry and the mask of its digit come from one and the same `normalize_consts_avx(b)` call - the reference kernels write
+    `get_carry_i64(b, x, get_digit_i64(b, x))` with one b (DC-1).  A carry taken at `>> base2k` from a digit of `base2k - lsh` bits loses lsh bits of every carry."""
+    n = 0
+    for f in sorted(p.lib_fns(), key=lambda x: x.uid):
+        if not f.uid.startswith("poulpy_cpu_avx::znx_avx::normalization") or not f.blocks or f.is_test():
+            continue
+        flow = None
+        for bi, t in f.calls():
+            if (f.callee_def(t) or {}).get("n") != "get_carry_avx" or len(t["a"]) < 4:
+                continue
+            flow = flow or Flow(f)
+
+            def consts_call(op):
+                out = set()
+                for r in flow.op_roots(op):
+                    if r[0] == "call" and (f.callee_def(f.blocks[r[1]]["t"]) or {}).get("n") == "normalize_consts_avx":
+                        out.add(r[1])
+                    else:
+                        out.add(("other",) + tuple(r[:2]))
+                return out
+            n += 1
+            dsrc = set()
+            for r in flow.op_roots(t["a"][1]):
+                if r[0] == "call" and (f.callee_def(f.blocks[r[1]]["t"]) or {}).get("n") == "get_digit_avx":
+                    dsrc |= consts_call(f.blocks[r[1]]["t"]["a"][1])
+                else:
+                    dsrc.add(("not-a-digit",) + tuple(r[:2]))
+            csrc = consts_call(t["a"][2]) | consts_call(t["a"][3])
+            if dsrc == csrc and all(isinstance(x, int) for x in dsrc):
+                res.ok("BK-13", {"kernel": f.pretty} if n % 6 == 1 else None)
+            elif any(not isinstance(x, int) for x in dsrc | csrc):
+                res.undec("BK-13", "%s: digit / width constants not traced to normalize_consts_avx" % f.pretty)
+            else:
+                res.bad("BK-13", f.pretty, "carry-width-differs-from-digit-width", "%s takes a carry with the width constants of one normalize_consts_avx call from a digit extracted with the mask of "
+                        "another: the reference kernel uses one width for both (`get_carry(b, x, get_digit(b, x))`), so the two backends disagree whenever the widths differ (shift not a "
+                        "multiple of the radix)" % f.pretty, site=f.where(t["l"]))
+    return n
+
+
 def bk12(p, res):
     """Newton / Hensel lifting of an inverse modulo a power of two, x <- x * (2 - p * x): every step doubles the number of correct low bits, so a loop that stops on a test of
     the requested width is right for every width, and a fixed number c of steps is right only up to 2^c bits - it has to reach the width of the word (64), or the function
@@ -744,6 +785,7 @@ def run(res, tier):
     res.rule("BK-7", "an AVX kernel's in-place (`*_assign_avx*`) and out-of-place forms use the same set of arithmetic / logic / compare intrinsics (loads, stores, constant set-ups ignored; a const-generic accumulate twin may add)")
     res.rule("BK-8", "where the reference kernel uses i64::wrapping_mul the AVX kernel of the same trait method does not multiply with _mm256_mul_epi32 (low 32 bits only)")
     res.rule("FFT-1", "every site of the FFT64 transform (reference and AVX executors, the shared table builder) compares the transform size with the same cut-over constant per direction")
+    res.rule("BK-13", "AVX normalisation steps: a carry is taken with the width constants of the same normalize_consts_avx call that gave the mask of its digit")
     res.rule("BK-12", "a Hensel lifting x <- x * (2 - p * x) runs until the requested width, or a fixed number of steps that reaches the word width / an asserted bound")
     res.rule("BK-11", "reference power-of-two down-scaling kernels add a rounding bias before the right shift (i64 and i128 alike)")
     res.rule("BK-10", "NTT120 family: an i64 digit is widened to i128 before it is negated / added / subtracted (exact over the whole i64 range)")
@@ -779,6 +821,8 @@ def run(res, tier):
         from .c07 import fft1
         nf = fft1(p, res)
         res.floor("FFT-1", "strategy cut-over comparisons", nf, 12, ref_min=8)
+        n13 = bk13(p, res)
+        res.floor("BK-13", "get_carry_avx applications", n13, 18, ref_min=0)
         n12 = bk12(p, res)
         res.floor("BK-12", "modular-inverse liftings", n12, 1, ref_min=0)
         n10 = bk10(p, res)
